@@ -137,8 +137,9 @@ func handleZADD(params internal.HandlerFuncParams) ([]byte, error) {
 		return nil, err
 	}
 
-	// Only create the key when something was added to it.
-	if !keyExists && set.Cardinality() > 0 {
+	// Only create the key when something was added to it. An existing sorted set is written back so that
+	// the memory usage, the modification count and the eviction caches see the change.
+	if keyExists || set.Cardinality() > 0 {
 		if err = params.SetValues(params.Context, map[string]interface{}{key: set}); err != nil {
 			return nil, err
 		}
@@ -398,6 +399,11 @@ func handleZINCRBY(params internal.HandlerFuncParams) ([]byte, error) {
 		"incr"); err != nil {
 		return nil, err
 	}
+	// Write the updated sorted set back so that the memory usage, the modification count and the
+	// eviction caches see the change.
+	if err = params.SetValues(params.Context, map[string]interface{}{key: set}); err != nil {
+		return nil, err
+	}
 	return []byte(fmt.Sprintf("+%s\r\n",
 		strconv.FormatFloat(float64(set.Get(member).Score), 'f', -1, 64))), nil
 }
@@ -570,6 +576,11 @@ func handleZMPOP(params internal.HandlerFuncParams) ([]byte, error) {
 			if err != nil {
 				return nil, err
 			}
+			// Write the updated sorted set back so that the memory usage, the modification count and the
+			// eviction caches see the change.
+			if err = params.SetValues(params.Context, map[string]interface{}{keys.WriteKeys[i]: v}); err != nil {
+				return nil, err
+			}
 
 			res := fmt.Sprintf("*%d", popped.Cardinality())
 
@@ -626,6 +637,13 @@ func handleZPOP(params internal.HandlerFuncParams) ([]byte, error) {
 	popped, err := set.Pop(count, policy)
 	if err != nil {
 		return nil, err
+	}
+	// Write the updated sorted set back so that the memory usage, the modification count and the
+	// eviction caches see the change.
+	if popped.Cardinality() > 0 {
+		if err = params.SetValues(params.Context, map[string]interface{}{key: set}); err != nil {
+			return nil, err
+		}
 	}
 
 	res := fmt.Sprintf("*%d", popped.Cardinality())
@@ -806,6 +824,14 @@ func handleZREM(params internal.HandlerFuncParams) ([]byte, error) {
 		}
 	}
 
+	if deletedCount > 0 {
+		// Write the updated sorted set back so that the memory usage, the modification count and the
+		// eviction caches see the change.
+		if err = params.SetValues(params.Context, map[string]interface{}{key: set}); err != nil {
+			return nil, err
+		}
+	}
+
 	return []byte(fmt.Sprintf(":%d\r\n", deletedCount)), nil
 }
 
@@ -873,6 +899,14 @@ func handleZREMRANGEBYSCORE(params internal.HandlerFuncParams) ([]byte, error) {
 		}
 	}
 
+	if deletedCount > 0 {
+		// Write the updated sorted set back so that the memory usage, the modification count and the
+		// eviction caches see the change.
+		if err = params.SetValues(params.Context, map[string]interface{}{key: set}); err != nil {
+			return nil, err
+		}
+	}
+
 	return []byte(fmt.Sprintf(":%d\r\n", deletedCount)), nil
 }
 
@@ -932,6 +966,14 @@ func handleZREMRANGEBYRANK(params internal.HandlerFuncParams) ([]byte, error) {
 		}
 	}
 
+	if deletedCount > 0 {
+		// Write the updated sorted set back so that the memory usage, the modification count and the
+		// eviction caches see the change.
+		if err = params.SetValues(params.Context, map[string]interface{}{key: set}); err != nil {
+			return nil, err
+		}
+	}
+
 	return []byte(fmt.Sprintf(":%d\r\n", deletedCount)), nil
 }
 
@@ -972,6 +1014,14 @@ func handleZREMRANGEBYLEX(params internal.HandlerFuncParams) ([]byte, error) {
 			slices.Contains([]int{-1, 0}, internal.CompareLex(string(m.Value), maximum)) {
 			set.Remove(m.Value)
 			deletedCount += 1
+		}
+	}
+
+	if deletedCount > 0 {
+		// Write the updated sorted set back so that the memory usage, the modification count and the
+		// eviction caches see the change.
+		if err = params.SetValues(params.Context, map[string]interface{}{key: set}); err != nil {
+			return nil, err
 		}
 	}
 
